@@ -297,6 +297,10 @@ class Inliner:
                 own = self._module_functions().get(f.id)
                 if f.id in ANCHOR_FUNCTIONS:
                     return None            # a function the rules analyse under its own name stays a call
+                if own is not None and not own.decorator_list and not _is_generator(own) and not self._imported_elsewhere(f.id) \
+                        and not any(isinstance(n, (ast.Global, ast.Nonlocal)) for n in ast.walk(own)):
+                    # a public-looking helper that no other module of the package imports is a helper of this module, whatever its size
+                    return own, False
                 if own is not None and not own.decorator_list and len(_body(own)) <= 5 and not _is_generator(own) \
                         and not any(isinstance(n, (ast.With, ast.Try, ast.For, ast.While, ast.Global, ast.Nonlocal)) for n in ast.walk(own)):
                     return own, False
@@ -379,6 +383,29 @@ class Inliner:
                 return fn, False
             return fn, True
         return None
+
+    def _imported_elsewhere(self, name: str) -> bool:
+        """some other module of the package imports `name` from this module (or the module star-imports / is the package API)."""
+        if self.sf is None:
+            return True
+        cache = self.repo.__dict__.setdefault("_imported_elsewhere", {})
+        key = (self.sf.modname, name)
+        if key not in cache:
+            hit = False
+            for other in self.repo.files.values():
+                if other is self.sf:
+                    continue
+                for nm, imp in other.imports.items():
+                    if imp and imp[0] == self.sf.modname and (imp[1] == name or imp[1] in ("*",)):
+                        hit = True
+                # attribute access through the module object: `module.name`
+                if not hit and any(isinstance(n, ast.Attribute) and n.attr == name and isinstance(n.value, ast.Name)
+                                   and other.imports.get(n.value.id, (None, None))[0] in (self.sf.modname, self.sf.modname.rsplit(".", 1)[0]) for n in ast.walk(other.tree)):
+                    hit = True
+                if hit:
+                    break
+            cache[key] = hit
+        return cache[key]
 
     def _record_class_of(self, e: ast.expr) -> Optional[ClassInfo]:
         """The record class (NamedTuple / dataclass with annotated fields) of which `e` — a class-level or module-level constant, or a
@@ -466,8 +493,17 @@ class Inliner:
     def _bind(self, fn: ast.FunctionDef, call: ast.Call, bound: bool) -> Tuple[List[ast.stmt], Dict[str, ast.expr]]:
         """Parameter bindings: simple arguments are substituted, others are evaluated once into a temporary."""
         a = fn.args
-        if a.vararg or a.kwarg or a.posonlyargs:
+        if a.vararg or a.posonlyargs:
             raise CannotInline("varargs")
+        if a.kwarg is not None:
+            # `def h(self, cls, data, **opts): … cls(self.f, **opts)`: the extra keywords of the call are forwarded where `**opts`
+            # is written, provided the dictionary is used in no other way (see _instantiate)
+            kwn = a.kwarg.arg
+            uses = [n for st in fn.body for n in ast.walk(st) if isinstance(n, ast.Name) and n.id == kwn]
+            forwards = [k for st in fn.body for c in ast.walk(st) if isinstance(c, ast.Call) for k in c.keywords if k.arg is None
+                        and isinstance(k.value, ast.Name) and k.value.id == kwn]
+            if len(uses) != len(forwards) or not forwards:
+                raise CannotInline("keyword dictionary used other than by forwarding")
         params = [p.arg for p in a.args]
         mapping: Dict[str, ast.expr] = {}
         pre: List[ast.stmt] = []
@@ -487,10 +523,15 @@ class Inliner:
         given: Dict[str, ast.expr] = {}
         for p, v in zip(params, call.args):
             given[p] = v
+        extra_kw: List[ast.keyword] = []
         for k in call.keywords:
             if k.arg not in params and k.arg not in [x.arg for x in a.kwonlyargs]:
+                if a.kwarg is not None and isinstance(k.value, (ast.Name, ast.Constant, ast.Attribute)):
+                    extra_kw.append(k)
+                    continue
                 raise CannotInline(f"unknown keyword {k.arg}")
             given[k.arg] = k.value
+        self._forwarded_kw = (a.kwarg.arg, extra_kw) if a.kwarg is not None else None
         defaults = dict(zip([p.arg for p in a.args][len(a.args) - len(a.defaults):], a.defaults))
         defaults.update({p.arg: d for p, d in zip(a.kwonlyargs, a.kw_defaults) if d is not None})
         assigned_in_body = {n.id for st in fn.body for n in ast.walk(st) if isinstance(n, ast.Name) and isinstance(n.ctx, (ast.Store, ast.Del))}
@@ -515,6 +556,15 @@ class Inliner:
         tag = f"__h{self.counter}"
         pre, mapping = self._bind(fn, call, bound)
         body = copy.deepcopy(_body(fn))
+        fwd = getattr(self, "_forwarded_kw", None)
+        if fwd is not None:
+            kwn, extra = fwd
+            for st in body:
+                for c in ast.walk(st):
+                    if isinstance(c, ast.Call) and any(k.arg is None and isinstance(k.value, ast.Name) and k.value.id == kwn for k in c.keywords):
+                        c.keywords = [k for k in c.keywords if not (k.arg is None and isinstance(k.value, ast.Name) and k.value.id == kwn)] + \
+                            [copy.deepcopy(k) for k in extra]
+            self._forwarded_kw = None
         if any(isinstance(n, ast.Nonlocal) for st in body for n in ast.walk(st)):
             raise CannotInline("nonlocal")
         if any(isinstance(n, ast.Global) for st in body for n in ast.walk(st)):
@@ -1653,6 +1703,25 @@ def unroll(fn: ast.FunctionDef, repo: Optional[Repo] = None, ci: Optional[ClassI
                                        and loads.get(st0.targets[0].id) == 1 and isinstance(st0.value, ast.Call)}
 
     consumed: Set[str] = set()
+    unroll_counter = [0]
+
+    class _RenameAll(ast.NodeTransformer):
+        """like _Rename, and a plain-name replacement also renames stores (per-copy loop variables)"""
+        def __init__(self, mapping):
+            self.mapping = mapping
+
+        def visit_Name(self, node):
+            v = self.mapping.get(node.id)
+            if v is None:
+                return node
+            if isinstance(node.ctx, ast.Load):
+                return ast.copy_location(copy.deepcopy(v), node)
+            if isinstance(v, ast.Name):
+                return ast.copy_location(ast.Name(id=v.id, ctx=node.ctx), node)
+            return node
+
+        def visit_Lambda(self, node):
+            return node
 
     def block(stmts: List[ast.stmt], env: Dict[str, List[ast.expr]]) -> List[ast.stmt]:
         env = dict(env)
@@ -1752,12 +1821,30 @@ def unroll(fn: ast.FunctionDef, repo: Optional[Repo] = None, ci: Optional[ClassI
                 if els is not None and not has_flow:
                     ok = True
                     pieces: List[ast.stmt] = []
-                    for x in els:
+                    # a loop variable that the body re-binds (`operand = operand.orig`) is a variable, not an abbreviation of the element:
+                    # each copy gets its own variable, initialised with the element
+                    tnames = {n_.id for n_ in ast.walk(st.target) if isinstance(n_, ast.Name)}
+                    rebound_t = {n_.id for s_ in st.body for n_ in ast.walk(s_) if isinstance(n_, ast.Name) and isinstance(n_.ctx, (ast.Store, ast.Del))
+                                 and n_.id in tnames}
+                    if rebound_t:
+                        body_ids = {id(n_) for s_ in st.body for n_ in ast.walk(s_)} | {id(n_) for n_ in ast.walk(st.target)}
+                        if any(isinstance(n_, ast.Name) and n_.id in rebound_t and id(n_) not in body_ids for n_ in ast.walk(new)):
+                            els = None            # the variable is read after the loop as well: leave the loop as it is
+                            ok = False
+                    for xi, x in enumerate(els or []):
                         b = _bind_target(st.target, x)
                         if b is None:
                             ok = False
                             break
-                        body = [_Rename(dict(b)).visit(copy.deepcopy(s)) for s in st.body]
+                        pre_u: List[ast.stmt] = []
+                        if rebound_t:
+                            b = dict(b)
+                            for nm_ in sorted(rebound_t):
+                                unroll_counter[0] += 1
+                                fresh = f"{nm_}__u{unroll_counter[0]}"
+                                pre_u.append(ast.copy_location(ast.Assign(targets=[ast.Name(id=fresh, ctx=ast.Store())], value=copy.deepcopy(b[nm_])), st))
+                                b[nm_] = ast.Name(id=fresh, ctx=ast.Load())
+                        body = pre_u + [_RenameAll(dict(b)).visit(copy.deepcopy(s)) if rebound_t else _Rename(dict(b)).visit(copy.deepcopy(s)) for s in st.body]
                         for s2 in body:
                             for n2 in ast.walk(s2):
                                 n2._synthetic = True
@@ -1814,6 +1901,24 @@ def unroll(fn: ast.FunctionDef, repo: Optional[Repo] = None, ci: Optional[ClassI
                     ast.copy_location(loop, st)
                     ast.fix_missing_locations(loop)
                     out.extend(block([loop], env))
+                    continue
+            # --- a, b = xs / a, b = map(f, xs)   with xs a list built element by element in this function: one element per target
+            if isinstance(st, ast.Assign) and len(st.targets) == 1 and isinstance(st.targets[0], (ast.Tuple, ast.List)) \
+                    and not any(isinstance(t, ast.Starred) for t in st.targets[0].elts):
+                v0 = st.value
+                fcall = None
+                if isinstance(v0, ast.Call) and norm(v0.func) == "map" and len(v0.args) == 2 and not v0.keywords and isinstance(v0.args[0], (ast.Name, ast.Attribute)):
+                    fcall, v0 = v0.args[0], v0.args[1]
+                if isinstance(v0, ast.Name) and v0.id in env and len(env[v0.id]) == len(st.targets[0].elts) \
+                        and all(isinstance(x, (ast.Name, ast.Constant, ast.Attribute)) for x in env[v0.id]):
+                    elts = [copy.deepcopy(x) for x in env[v0.id]]
+                    if fcall is not None:
+                        elts = [ast.Call(func=copy.deepcopy(fcall), args=[x], keywords=[]) for x in elts]
+                    st = copy.copy(st)
+                    st.value = ast.copy_location(ast.Tuple(elts=elts, ctx=ast.Load()), st.value)
+                    out.append(ast.fix_missing_locations(st))
+                    for k in assigned_names([st]):
+                        env.pop(k, None)
                     continue
             # --- a, b, c = (f(k) for k in (K1, K2, K3)): the generated elements, one per target
             if isinstance(st, ast.Assign) and len(st.targets) == 1 and isinstance(st.targets[0], (ast.Tuple, ast.List)) \
@@ -2129,6 +2234,54 @@ def desugar_walrus(fn: ast.FunctionDef) -> ast.FunctionDef:
     return new
 
 
+def forward_unpacked_calls(fn: ast.FunctionDef) -> ast.FunctionDef:
+    """`fields = unpack(F, data)` bound once and read once, as the whole right-hand side of `a, b, c = fields` in the same block
+    with nothing but plain statements in between: read as `a, b, c = unpack(F, data)`."""
+    stores: Dict[str, int] = {}
+    loads: Dict[str, int] = {}
+    for n in ast.walk(fn):
+        if isinstance(n, ast.Name):
+            d = loads if isinstance(n.ctx, ast.Load) else stores
+            d[n.id] = d.get(n.id, 0) + 1
+    cands = {n.targets[0].id for n in ast.walk(fn) if isinstance(n, ast.Assign) and len(n.targets) == 1 and isinstance(n.targets[0], ast.Name)
+             and isinstance(n.value, ast.Call) and stores.get(n.targets[0].id) == 1 and loads.get(n.targets[0].id) == 1}
+    if not cands:
+        return fn
+    new = copy.deepcopy(fn)
+    changed = [False]
+
+    def block(stmts: List[ast.stmt]) -> List[ast.stmt]:
+        out: List[ast.stmt] = []
+        pending: Dict[str, ast.Assign] = {}
+        for st in stmts:
+            if isinstance(st, ast.Assign) and len(st.targets) == 1 and isinstance(st.targets[0], (ast.Tuple, ast.List)) and isinstance(st.value, ast.Name) \
+                    and st.value.id in pending:
+                src = pending.pop(st.value.id)
+                out.remove(src)
+                st.value = src.value
+                changed[0] = True
+            elif isinstance(st, ast.Assign) and len(st.targets) == 1 and isinstance(st.targets[0], ast.Name) and st.targets[0].id in cands \
+                    and isinstance(st.value, ast.Call):
+                pending[st.targets[0].id] = st
+            elif not isinstance(st, (ast.Assign, ast.AugAssign, ast.AnnAssign, ast.Expr, ast.Pass)):
+                pending.clear()
+            for fld in ("body", "orelse", "finalbody"):
+                sub = getattr(st, fld, None)
+                if isinstance(sub, list) and sub and isinstance(sub[0], ast.stmt) and not isinstance(st, (ast.FunctionDef, ast.ClassDef)):
+                    setattr(st, fld, block(sub))
+            if isinstance(st, ast.Try):
+                for h in st.handlers:
+                    h.body = block(h.body)
+            out.append(st)
+        return out
+    new.body = block(new.body)
+    if not changed[0]:
+        return fn
+    ast.fix_missing_locations(new)
+    number(new)
+    return new
+
+
 def desugar_takewhile(fn: ast.FunctionDef) -> ast.FunctionDef:
     """`for T in takewhile(lambda x: P(x), XS): BODY` reads as `for T in XS: if not P(T): break; BODY` (T written as an expression;
     `(a, b)[0]` folded to `a`); `dropwhile` is not touched."""
@@ -2346,6 +2499,7 @@ def normalize(repo: Repo, ci: Optional[ClassInfo], fn: ast.FunctionDef, sf: Opti
     out = desugar_walrus(out)
     out = desugar_idioms(out)
     out = desugar_takewhile(out)
+    out = forward_unpacked_calls(out)
     if any(isinstance(n, ast.Call) and isinstance(n.func, ast.Call) and norm(n.func.func).split(".")[-1] in ("itemgetter", "attrgetter") for n in ast.walk(out)):
         out = desugar_getters(out)
     if any(isinstance(n, ast.Call) and norm(n.func).split(".")[-1] == "iter_unpack" for n in ast.walk(out)):
